@@ -161,9 +161,9 @@ func condFor(t *rapid.T, key string) *model.Expr {
 	switch key {
 	case "_gid":
 		if rapid.Bool().Draw(t, "gid.within") {
-			return model.Leaf("within", key, strs(rapid.SliceOfNDistinct(rapid.SampledFrom(append(append([]string{}, VertexIDs...), EdgeIDs[:4]...)), 0, 3, rapid.ID[string]).Draw(t, "gids")))
+			return model.Leaf("within", key, strs(rapid.SliceOfNDistinct(rapid.SampledFrom(append(append([]string{""}, VertexIDs...), EdgeIDs[:4]...)), 0, 3, rapid.ID[string]).Draw(t, "gids")))
 		}
-		return model.Leaf(rapid.SampledFrom([]string{"eq", "neq"}).Draw(t, "op"), key, rapid.SampledFrom(append(append([]string{}, VertexIDs[:4]...), EdgeIDs[:3]...)).Draw(t, "gid"))
+		return model.Leaf(rapid.SampledFrom([]string{"eq", "neq"}).Draw(t, "op"), key, rapid.SampledFrom(append(append([]string{""}, VertexIDs[:4]...), EdgeIDs[:3]...)).Draw(t, "gid"))
 	case "_label":
 		if rapid.Bool().Draw(t, "label.within") {
 			return model.Leaf(rapid.SampledFrom([]string{"within", "without"}).Draw(t, "op"), key, strs(rapid.SliceOfNDistinct(rapid.SampledFrom(append(append([]string{}, VertexLabels...), EdgeLabels...)), 0, 3, rapid.ID[string]).Draw(t, "labels")))
@@ -269,10 +269,10 @@ func Start(t *rapid.T) model.Step {
 	case 5, 6:
 		return model.S("E")
 	case 7, 8:
-		ids := rapid.SliceOfNDistinct(rapid.SampledFrom(append(append([]string{}, VertexIDs...), "nope")), 1, 3, rapid.ID[string]).Draw(t, "vids")
+		ids := rapid.SliceOfNDistinct(rapid.SampledFrom(append(append([]string{}, VertexIDs...), "nope", "")), 1, 3, rapid.ID[string]).Draw(t, "vids")
 		return model.S("V", ids...)
 	}
-	ids := rapid.SliceOfNDistinct(rapid.SampledFrom(append(append([]string{}, EdgeIDs[:6]...), "nope")), 1, 3, rapid.ID[string]).Draw(t, "eids")
+	ids := rapid.SliceOfNDistinct(rapid.SampledFrom(append(append([]string{}, EdgeIDs[:6]...), "nope", "")), 1, 3, rapid.ID[string]).Draw(t, "eids")
 	return model.S("E", ids...)
 }
 
@@ -318,9 +318,10 @@ func leadFilter(t *rapid.T, st *tstate) model.Step {
 	}
 	switch rapid.IntRange(0, 7).Draw(t, "leadKind") {
 	case 0, 1:
-		return model.S("hasLabel", WithRepeat(t, rapid.SliceOfNDistinct(rapid.SampledFrom(append(append([]string{}, lbls...), "nolabel")), 1, 2, rapid.ID[string]).Draw(t, "labels"))...)
+		return model.S("hasLabel", WithRepeat(t, rapid.SliceOfNDistinct(rapid.SampledFrom(append(append([]string{}, lbls...), "nolabel", "")), 1, 2, rapid.ID[string]).Draw(t, "labels"))...)
 	case 2:
-		return model.S("hasId", WithRepeat(t, rapid.SliceOfNDistinct(rapid.SampledFrom(ids), 1, 3, rapid.ID[string]).Draw(t, "ids"))...)
+		// "" and "nope" name no element: the filter then keeps nothing, whatever it is planned as
+		return model.S("hasId", WithRepeat(t, rapid.SliceOfNDistinct(rapid.SampledFrom(append(append([]string{}, ids...), "", "nope")), 1, 3, rapid.ID[string]).Draw(t, "ids"))...)
 	case 3:
 		return model.Step{Op: "has", Has: condFor(t, "_label")}
 	case 4:
@@ -373,7 +374,7 @@ func nextStep(t *rapid.T, st *tstate, o TravOpts) ([]model.Step, bool) {
 		if !isV {
 			pool = EdgeIDs[:6]
 		}
-		return one(model.S("hasId", WithRepeat(t, rapid.SliceOfNDistinct(rapid.SampledFrom(pool), 1, 3, rapid.ID[string]).Draw(t, "ids"))...))
+		return one(model.S("hasId", WithRepeat(t, rapid.SliceOfNDistinct(rapid.SampledFrom(append(append([]string{}, pool...), "")), 1, 3, rapid.ID[string]).Draw(t, "ids"))...))
 	})
 	add(2, func() ([]model.Step, bool) {
 		return one(model.S("hasKey", rapid.SliceOfNDistinct(rapid.SampledFrom([]string{"k", "n", "s", "l", "a", "a.k", "nope"}), 1, 2, rapid.ID[string]).Draw(t, "keys")...))
